@@ -507,6 +507,16 @@ static double amplgsl_sf_bessel_Y1(arglist *al) {
   return check_result(al, y1);
 }
 
+/* Calls an int-order Bessel function through its error-reporting form and
+ * returns NaN (a derivative error after check_result) if GSL reports a
+ * failure: the natural form returns an uninitialized value in that case,
+ * e.g. gsl_sf_bessel_Kn(-2, 1e-300). */
+static double checked_bessel_n(
+    int (*f)(int, double, gsl_sf_result *), int n, double x) {
+  gsl_sf_result result = {GSL_NAN, 0};
+  return f(n, x, &result) == GSL_SUCCESS ? result.val : GSL_NAN;
+}
+
 static double amplgsl_sf_bessel_Yn(arglist *al) {
   int n = (int)al->ra[0];
   double x = al->ra[1];
@@ -516,10 +526,12 @@ static double amplgsl_sf_bessel_Yn(arglist *al) {
   CHECK_CALL(yn, gsl_sf_bessel_Yn_e(n, x, &result));
   if (al->derivs) {
     al->derivs[1] = 0.5 *
-        (gsl_sf_bessel_Yn(n - 1, x) - gsl_sf_bessel_Yn(n + 1, x));
+        (checked_bessel_n(gsl_sf_bessel_Yn_e, n - 1, x) -
+         checked_bessel_n(gsl_sf_bessel_Yn_e, n + 1, x));
     if (al->hes) {
       al->hes[2] = 0.25 *
-          (gsl_sf_bessel_Yn(n - 2, x) - 2 * yn + gsl_sf_bessel_Yn(n + 2, x));
+          (checked_bessel_n(gsl_sf_bessel_Yn_e, n - 2, x) - 2 * yn +
+           checked_bessel_n(gsl_sf_bessel_Yn_e, n + 2, x));
     }
   }
   return check_result(al, yn);
@@ -645,10 +657,12 @@ static double amplgsl_sf_bessel_Kn(arglist *al) {
   CHECK_CALL(kn, gsl_sf_bessel_Kn_e(n, x, &result));
   if (al->derivs) {
     al->derivs[1] = -0.5 *
-        (gsl_sf_bessel_Kn(n - 1, x) + gsl_sf_bessel_Kn(n + 1, x));
+        (checked_bessel_n(gsl_sf_bessel_Kn_e, n - 1, x) +
+         checked_bessel_n(gsl_sf_bessel_Kn_e, n + 1, x));
     if (al->hes) {
       al->hes[2] = 0.25 *
-          (gsl_sf_bessel_Kn(n - 2, x) + 2 * kn + gsl_sf_bessel_Kn(n + 2, x));
+          (checked_bessel_n(gsl_sf_bessel_Kn_e, n - 2, x) + 2 * kn +
+           checked_bessel_n(gsl_sf_bessel_Kn_e, n + 2, x));
     }
   }
   return check_result(al, kn);
